@@ -14,7 +14,7 @@ from .c01 import shape_sig
 
 PROP = 'C05'
 LEVEL = 'exploration'
-N = {'quick': 30000, 'thorough': 2000000}
+N = {'quick': 26000, 'thorough': 2000000}
 RULE = ('seeded worlds (2-8 segments, 1-4 channels, some with identical shapes so the offset index is '
         'de-duplicated, _array_equal chunk knob in {1,2,3,100}); per world a seeded schedule of <=60 actions over '
         '<=8 live generators (TdmsFile.data_chunks, channel.data_chunks, iter(channel)) and direct index / slice '
